@@ -308,6 +308,7 @@ def units(tier, seed):
     for kk in ['int', 'float', 'np.int64', 'np.float64', 'np.float32']:
         us.append({'kind': 'pow', 'ekind': kk, 'tier': tier, 'seed': seed})
     us.append({'kind': 'alias', 'tier': tier, 'seed': seed})
+    us.append({'kind': 'alias_binary', 'tier': tier, 'seed': seed})
     return us
 
 
@@ -421,8 +422,50 @@ def run_alias(u, out):
                             out['fails'].append({'sig': 'C02|%s|inplace-aliased|%s|%s' % (opn, form, d['reason'].split(' (')[0]), 'case': case, 'detail': d})
 
 
+def run_alias_binary(u, out):
+    """binary (not in-place) operators whose operands are DIFFERENT VIEWS OF ONE BUFFER (same start address, other strides;
+    reversed; overlapping) must give what independent copies give"""
+    for opn in OPS:
+        for (D, P) in DPS[u['tier']]:
+            for cplx in (False, True):
+                for form in ('x,x.T', 'x.T,x', 'x,x', 'x,x[::-1]', 'v[::2],v[:3]', 'v[:3],v[::2]', 'c,c.transpose-like'):
+                    if form in ('x,x.T', 'x.T,x'):
+                        x = UTPM(fill_utpm(D, P, (3, 3), cplx, 'dense', 2 + D, 'gen' if opn == 'div' else False))
+                        L, R = (x, x.T) if form == 'x,x.T' else (x.T, x)
+                    elif form == 'x,x':
+                        x = UTPM(fill_utpm(D, P, (2, 3), cplx, 'dense', 4 + D, 'gen' if opn == 'div' else False))
+                        L, R = x, x
+                    elif form == 'x,x[::-1]':
+                        x = UTPM(fill_utpm(D, P, (4,), cplx, 'dense', 6 + D, 'gen' if opn == 'div' else False))
+                        L, R = x, x[::-1]
+                    elif form in ('v[::2],v[:3]', 'v[:3],v[::2]'):
+                        v = UTPM(fill_utpm(D, P, (5,), cplx, 'dense', 8 + D, 'gen' if opn == 'div' else False))
+                        L, R = (v[::2], v[:3]) if form.startswith('v[::2]') else (v[:3], v[::2])
+                    else:
+                        c3 = UTPM(fill_utpm(D, P, (2, 2, 2), cplx, 'dense', 9 + D, 'gen' if opn == 'div' else False))
+                        L, R = c3, UTPM(np.swapaxes(c3.data, 2, 4))
+                    Lc, Rc = UTPM(L.data.copy()), UTPM(R.data.copy())
+                    case = {'kind': 'alias_binary', 'op': opn, 'form': form, 'D': D, 'P': P, 'cplx': cplx, 'tier': u['tier']}
+                    out['evals'] += 1
+                    out['nontrivial'] += 1 if D > 1 else 0
+                    try:
+                        r, m, bshape, cx = reference(opn, Lc, Rc, D, P)
+                        res = OPS[opn](L, R)
+                    except Exception as e:
+                        out['fails'].append({'sig': 'C02|%s|binary-aliased|%s|raises' % (opn, form), 'case': case, 'detail': {'error': str(e)[:200]}})
+                        continue
+                    d = compare(res, r, m, bshape, cx, opn != 'div', D, P)
+                    if d is not None:
+                        out['fails'].append({'sig': 'C02|%s|binary-aliased|%s|%s' % (opn, form, d['reason'].split(' (')[0]), 'case': case, 'detail': d})
+                    elif not (np.array_equal(L.data, Lc.data) and np.array_equal(R.data, Rc.data)):
+                        out['fails'].append({'sig': 'C02|%s|binary-aliased|%s|operand modified' % (opn, form), 'case': case, 'detail': {}})
+
+
 def run_unit(u):
     out = {'evals': 0, 'nontrivial': 0, 'fails': [], 'samples': [], 'counters': {}}
+    if u['kind'] == 'alias_binary':
+        run_alias_binary(u, out)
+        return out
     if u['kind'] == 'alltuples':
         run_alltuples(u, out)
         return out
@@ -455,6 +498,9 @@ def replay(case):
         run_pow({'ekind': case['ekind'], 'tier': case.get('tier', 'quick')}, out)
         return [f for f in out['fails'] if f['case']['k'] == case['k'] and f['case']['D'] == case['D'] and f['case']['P'] == case['P']
                 and f['case']['shape'] == case['shape'] and f['case']['cplx'] == case['cplx']]
+    if case.get('kind') == 'alias_binary':
+        run_alias_binary({'tier': case.get('tier', 'quick')}, out)
+        return [f for f in out['fails'] if all(f['case'][k] == case[k] for k in ('op', 'form', 'D', 'P', 'cplx'))]
     if case.get('kind') == 'alias':
         run_alias({'tier': case.get('tier', 'quick')}, out)
         return [f for f in out['fails'] if all(f['case'][k] == case[k] for k in ('op', 'form', 'D', 'P', 'cplx', 'divisor'))]
